@@ -20,6 +20,7 @@ def run(ck, fb):
     r08k(ck, fb)
     r08l(ck, fb)
     r08m(ck, fb)
+    r08n(ck, fb)
     ck.borrow('rules.c05', {'R05h': 'R08i'}, 'the membership saved when a snapshot is installed must be the one recorded in that snapshot')
 
 
@@ -383,3 +384,37 @@ def r08m(ck, fb, R='R08m'):
                'follower serves is dropped together with its type, description and history', 'stored on every path')
     ck.require(bool(idx) and cfg.must_pass_before_return(b, 0, {s.bb for s in idx}), R, 'inner_set_config:always-indexes', b.where(),
                'inner_set_config can return without indexing the key: the stored config is missing from listings')
+
+
+def r08n(ck, fb, R='R08n'):
+    ck.rule(R, 'a namespace record of a snapshot replaces the namespace the node holds: NamespaceActor::set_namespace has a mode (only_add) that keeps '
+               'an existing user namespace - meant for the one-time import of the old config value. Under propagation of the constant flags with which '
+               'load_snapshot_record reaches set_namespace (through helpers), every path of set_namespace from the lookup of the stored entry to a '
+               'return stores the record (data.insert). With only_add a follower that already holds the namespace keeps the old name after it was '
+               'caught up by a snapshot in which the leader had renamed it - and switches to the new one at its next restart')
+    from rn import ipconst
+    NS = 'rnacos::namespace::NamespaceActor::'
+    ld = ck.body(NS + 'load_snapshot_record', R)
+    sn = ck.body(NS + 'set_namespace', R)
+    if not (ld and sn):
+        return
+    ctxs = ipconst.contexts(fb, ld, {}, sn.name)
+    ck.floor(R, 'calls of set_namespace on the snapshot load path', len(ctxs), 1)
+    look = [s0 for s0 in util.mut_calls_on_field(sn, 'data', r'HashMap::<K, V, S, A>::(get|get_mut|contains_key|entry|remove)$')]
+    ins = {s0.bb for s0 in util.mut_calls_on_field(sn, 'data', r'HashMap::<K, V, S, A>::insert$|Entry::<.*>::(insert|insert_entry|or_insert)|VacantEntry::<.*>::insert|OccupiedEntry::<.*>::insert', deep=1)}
+    ck.require(bool(look) and bool(ins), R, 'set_namespace:lookup-and-store', sn.where(), 'set_namespace no longer looks the entry up / stores it: anchor lost')
+    for (cb, s0, known) in ctxs:
+        live = ipconst.live_under(sn, known)
+        blocked = set(ins) | (set(range(len(sn.blocks))) - live)
+        esc = []
+        for l0 in look:
+            if l0.bb not in live:
+                continue
+            r = cfg.reach_from(sn, [l0.bb], blocked_blocks=blocked)
+            esc += [x for x in sn.return_blocks() if x in r]
+        flags = ', '.join('%s=%s' % (sn.local_name(k[1]) or k[1], v) for k, v in sorted(known.items()))
+        ck.require(not esc, R, 'load_snapshot_record:record-replaces-entry', s0.where(),
+                   'a namespace record of a snapshot is passed to set_namespace with %s: set_namespace can return after it found the stored entry '
+                   'without storing the record (%s) - a node that already holds the namespace keeps its old name when a snapshot is installed, and '
+                   'serves the new one only after a restart' % (flags or 'no constant flags', sn.where(esc[0]) if esc else ''),
+                   'with %s every path from the lookup stores the record' % flags)
